@@ -200,6 +200,9 @@ def build(tier, seed):
     for fam in FAMILIES:
         for n in (2, 3):
             cases.append({'kind': 'sequence', 'fam': fam, 'n': n})
+    for fam in FAMILIES:
+        for n in (2, 3):
+            cases.append({'kind': 'scales', 'fam': fam, 'n': n})
     for kind in ('obs', 'cobs'):
         cases.append({'kind': 'refill', 'ekind': kind})
     for ik in ('contiguous', 'strided', 'shifted', 'irregular'):
@@ -223,6 +226,8 @@ def run_case(case):
             run_sequence(pe, acc, case)
         elif case['kind'] == 'refill':
             run_refill(pe, acc, case)
+        elif case['kind'] == 'scales':
+            run_scales(pe, acc, case)
         else:
             run_jack(pe, acc, case)
     return acc
@@ -437,6 +442,39 @@ def run_sequence(pe, acc, case):
         else:
             acc.ok(('seq', fam, n, order), True, 'sequence')
     acc.sample(dict(case, operations=sorted(ops), orders='all %d' % math.factorial(len(ops))))
+
+
+def run_scales(pe, acc, case):
+    """The same identities for matrices of very small / very large magnitude and for factors of very different magnitude: matrix
+    operations are homogeneous, so every result is the order-one result times the appropriate power of the scale."""
+    fam, n = case['fam'], case['n']
+    L = pe.linalg
+    G = build_matrix(pe, fam, (n, n), 'G', 'obs')
+    H = build_matrix(pe, fam, (n, n), 'H', 'obs')
+    S = build_matrix(pe, fam, (n, n), 'S', 'obs', symmetric=True)
+    I = eye_like(n)
+    W = [G, H, S]
+
+    def at(name, f):
+        return attempt(pe, acc, name, case, f, True, watch=W)
+    for sa, sb in ((1e9, 1e-9), (1e-9, 1e9), (1e-12, 1e7), (1e150, 1e-150)):
+        tag = '%g*%g' % (sa, sb)
+        at('scale-matmul2:' + tag, lambda: mclose(L.matmul(G * sa, H * sb), (G @ H) * (sa * sb), pe))
+        at('scale-matmul3:' + tag, lambda: mclose(L.matmul(G * sa, H * sb, G), (G @ H @ G) * (sa * sb), pe))
+        at('scale-matmul3b:' + tag, lambda: mclose(L.matmul(H * sb, G, H * sa), (H @ G @ H) * (sa * sb), pe))
+    for sc in (1e-12, 1e-9, 1e9):
+        tag = '%g' % sc
+        at('scale-cholesky:' + tag, lambda: (lambda C: mclose(C @ C.T, S * sc, pe) or mclose(C, L.cholesky(S) * math.sqrt(sc), pe))(L.cholesky(S * sc)))
+        at('scale-inv:' + tag, lambda: (lambda Gi: mclose((G * sc) @ Gi, I, pe) or mclose(Gi, L.inv(G) * (1.0 / sc), pe))(L.inv(G * sc)))
+        at('scale-det:' + tag, lambda: oclose(L.det(G * sc), L.det(G) * sc ** n, pe))
+
+        def eigh_scaled():
+            w, v = L.eigh(S * sc)
+            w1, v1 = L.eigh(S)
+            return mclose(np.array(list(w), dtype=object), np.array([x * sc for x in w1], dtype=object), pe) or mclose((S * sc) @ v, v @ np.diag(w), pe)
+        at('scale-eigh:' + tag, eigh_scaled)
+        at('scale-pinv:' + tag, lambda: mclose(L.pinv(G * sc), L.pinv(G) * (1.0 / sc), pe, 1e-7))
+    acc.sample({'kind': 'scales', 'family': fam, 'n': n, 'factor_scales': [[1e9, 1e-9], [1e-9, 1e9], [1e-12, 1e7], [1e150, 1e-150]], 'matrix_scales': [1e-12, 1e-9, 1e9]})
 
 
 def run_refill(pe, acc, case):
